@@ -124,6 +124,39 @@ Proof.
   intros g Hg. apply (first_job_prefix ar c ibd g f Hidb Hg). rewrite Hia. discriminate.
 Qed.
 
+(* With the row coordinate taken from the TOP padding (repo commit 08d9aae; before it the right
+   padding was subtracted and this statement was false) the input volume of a job contains the
+   whole receptive field of its OFM block: every non-negative row / column that some output of the
+   block [y, y + block height) x [x, x + block width) reads through the (dilated, at most 32 x 64)
+   kernel lies between the volume's start and end. *)
+Lemma round_up_ge a b : 0 < b -> a <= round_up a b.
+Proof.
+  intros Hb. unfold round_up.
+  pose proof (Z.div_mod (a + b - 1) b ltac:(lia)). pose proof (Z.mod_pos_bound (a + b - 1) b Hb). nia.
+Qed.
+
+Lemma first_job_volume_covers_lemma ar c ibd off ia :
+  0 < ar_ublock_h ar -> 0 < ar_ublock_w ar ->
+  get_first_job_input_volume ar c ibd off = Some ia ->
+  exists oc,
+    get_offset_block_coords (co_ow c) (co_oh c) (co_od c) (co_bw c) (co_bh c) (co_bd c)
+                            (off / round_up_divide (fm_d (co_ifm c)) ibd) = Some oc /\
+    (forall r, 0 <= r ->
+       py oc * co_sy c - co_pt c <= r < (py oc + co_bh c - 1) * co_sy c - co_pt c + Z.min 32 ((co_kh c - 1) * co_dy c + 1) ->
+       py (fst ia) <= r < py (snd ia)) /\
+    (forall q, 0 <= q ->
+       px oc * co_sx c - co_pl c <= q < (px oc + co_bw c - 1) * co_sx c - co_pl c + Z.min 64 ((co_kw c - 1) * co_dx c + 1) ->
+       px (fst ia) <= q < px (snd ia)).
+Proof.
+  intros Hh Hw. unfold get_first_job_input_volume, ifm_block_wh.
+  destruct (get_offset_block_coords (co_ow c) (co_oh c) (co_od c) (co_bw c) (co_bh c) (co_bd c)
+              (off / round_up_divide (fm_d (co_ifm c)) ibd)) as [oc|]; [|discriminate].
+  intros [= <-]. exists oc. split; [reflexivity|]. cbn [fst snd px py].
+  pose proof (round_up_ge ((co_bh c - 1) * co_sy c + Z.min 32 ((co_kh c - 1) * co_dy c + 1)) (ar_ublock_h ar) Hh).
+  pose proof (round_up_ge ((co_bw c - 1) * co_sx c + Z.min 64 ((co_kw c - 1) * co_dx c + 1)) (ar_ublock_w ar) Hw).
+  split; intros v Hv Hr; lia.
+Qed.
+
 (* what calc_blockdep returns: 0 in the early-exit cases, MAX_BLOCKDEP when the producer's OFM
    overlaps neither operand, otherwise the loop result for the overlapping operand *)
 Lemma calc_blockdep_cases ar p c k :
